@@ -5,7 +5,7 @@ CONSTANTS
   Framings <- AnyFraming
   CTypes = {"json", "form", "none"}
   HandlerOf <- IdHandler
-  BodyKinds = {"empty", "valid", "truncated", "badenc", "hookfail"}
+  BodyKinds = {"empty", "valid", "truncated", "badenc", "hookfail", "blank", "padded"}
   CacheError = TRUE
   CacheDefault = FALSE
 INVARIANT Sound
